@@ -459,6 +459,14 @@ pub fn generate_io(seed: u64, instrs: &[String]) -> IoSc {
                             // a message without a header (the model compares whole messages)
                             m.header = vec![];
                             m.body = (0..(1 + hserial % 7)).map(|k| (hserial + k) % 3 == 0).collect();
+                            if r.chance(1, 3) {
+                                // a blank message (no header, no body) is a message like any other;
+                                // sometimes two of them in a row
+                                m.body = vec![];
+                                if r.chance(1, 2) {
+                                    hosts.push((at, HostOp::Produce { msg: m.clone(), force: false }));
+                                }
+                            }
                         }
                         hosts.push((at, HostOp::Produce { msg: m, force: false }));
                     }
@@ -708,8 +716,9 @@ pub fn execute_io(sc: &IoSc, iset: &mut InstructionSet, names: &[String]) -> IoR
         next: 0,
         input: st.input_stack.iter().map(MsgSpec::from_msg).collect(),
         output: st.output_stack.iter().map(MsgSpec::from_msg).collect(),
-        in_cap: st.input_stack.capacity(),
-        out_cap: st.output_stack.capacity(),
+        // the published bounds, not whatever the state was built with
+        in_cap: pushr::push::state::INPUT_BUFFER_SIZE,
+        out_cap: pushr::push::state::OUTPUT_BUFFER_SIZE,
         pre_int: None,
         pre_bv: None,
         pre_iv: None,
